@@ -442,6 +442,11 @@ func (c *Ctx) ruleMustHit(rule, what, why string, op *ssa.Function, excuses []*C
 // on some paths), the phi inputs that contradict the outcome are infeasible, and so are the values that travel
 // with them (`found := false; var x T; for ... { if m { found = true; x = ...; break } }; if found { use(x) }`).
 func (c *Ctx) OfAt(o *Origins, in ssa.Instruction, v ssa.Value) *Ex {
+	return c.OriginsAt(o, in).Of(v)
+}
+
+// OriginsAt: the provenance context restricted to the paths that can reach in (see OfAt).
+func (c *Ctx) OriginsAt(o *Origins, in ssa.Instruction) *Origins {
 	blk := in.Block()
 	cut := NewCut()
 	for d := blk.Idom(); d != nil; d = d.Idom() {
@@ -493,9 +498,9 @@ func (c *Ctx) OfAt(o *Origins, in ssa.Instruction, v ssa.Value) *Ex {
 		}
 	}
 	if len(cut.Edges) == 0 {
-		return o.Of(v)
+		return o
 	}
-	return o.WithCut(cut.Edges).Of(v)
+	return o.WithCut(cut.Edges)
 }
 
 // CtxsOf is CtxOf for helpers with several call sites: one context per chain of call sites that leads
